@@ -162,7 +162,13 @@ def build_config(case):
         ctx = {"streams": streams}
         if c["start"] is not None or c["end"] is not None:
             wf = case.get("wform", "datetime")
-            ctx["window"] = {"starting": _bound(c["start"], wf), "ending": _bound(c["end"], wf)}
+            w = {"starting": _bound(c["start"], wf), "ending": _bound(c["end"], wf)}
+            wk = case.get("wkeys", "se")
+            if wk in ("es", "omit_es"):
+                w = {"ending": w["ending"], "starting": w["starting"]}       # a mapping has no key order
+            if wk in ("omit", "omit_es"):
+                w = {k: v for k, v in w.items() if v is not None}            # an absent bound may simply be left out
+            ctx["window"] = w
         ctxs.append(ctx)
     return {"contexts": ctxs}
 
@@ -433,6 +439,8 @@ def gen_stream(tier, rng, frontends=("pandas", "numpy", "netcdf", "xarray"), fau
             cases.append({"frontend": fe, "n": n, "time": time if has_time else None, "z": axes["z"], "lat": axes["lat"],
                           "lon": axes["lon"], "cols": cols, "index": index if fe == "pandas" else list(range(n)),
                           "cfg": cfg})
+            if rng.random() < 0.4:
+                cases[-1]["wkeys"] = rng.choice(["es", "omit", "omit_es"])
             if wforms and not faults and has_time and rng.random() < 0.35 \
                     and any(c["start"] is not None or c["end"] is not None for c in cfg):
                 cases[-1]["wform"] = rng.choice(WINDOW_FORMS[1:])       # the same instants, spelled differently
@@ -742,6 +750,36 @@ def object_reuse_failures(rng, count):
             except Exception as e:  # noqa: BLE001
                 fails.append({"kind": "history", "function": "stream_run", "case": {"first": a, "second": b},
                               "impl": core.canon_exc(e), "clause": "reusing a Config object raised"})
+            try:
+                # (2) a Config whose list of calls is EDITED in place after a run (same number of calls, other
+                #     windows): the next run must be that of a fresh Config of the edited configuration
+                if a["time"] is not None and any(c["start"] is not None or c["end"] is not None for c in a["cfg"]):
+                    import copy
+                    a2 = copy.deepcopy(a)
+                    for c in a2["cfg"]:
+                        if c["start"] is not None:
+                            c["start"] += 2
+                        if c["end"] is not None:
+                            c["end"] += 3
+                        if c["start"] is None and c["end"] is None:
+                            c["end"] = a["time"][len(a["time"]) // 2] if a["time"] else None
+                    cfg = Config(build_config(a))
+                    before = len(cfg.calls)
+                    list(_run_with(cfg, a))
+                    new = Config(build_config(a2))
+                    if len(new.calls) == before:
+                        cfg.calls[:] = new.calls
+                        again = canon(a2, list(_run_with(cfg, a2)))
+                        fresh = canon(a2, run_frontend(a2))
+                        n_eval += 2
+                        if again != fresh:
+                            fails.append({"kind": "history", "function": "stream_run", "case": {"first": a, "edited": a2},
+                                          "impl": fresh, "impl_edited_config": again,
+                                          "clause": "a Config whose calls were edited in place after a run gives other results "
+                                                    "than a fresh Config of the edited configuration"})
+            except Exception as e:  # noqa: BLE001
+                fails.append({"kind": "history", "function": "stream_run", "case": {"first": a},
+                              "impl": core.canon_exc(e), "clause": "running an edited Config object raised"})
     return n_eval, fails
 
 
